@@ -540,6 +540,21 @@ fn run_profile(run: &mut Run) -> PResult {
         items.push(vec![0; 5]);
         items.push(vec![0; 6]);
         items.push(vec![0; 7]);
+        // extreme prime products: a rank repeated across all slots (largest: five aces, smallest:
+        // five deuces), quads plus a repeat; spread through the list so that several threads of the
+        // concurrent and cold-start passes meet them early
+        let mut extremes: Vec<Vec<u32>> = Vec::new();
+        for r in [12u32, 0, 11, 1, 6] {
+            let c = |s: u32| card::word(r, s);
+            for n in 5..=7usize {
+                extremes.push([c(3), c(3), c(2), c(1), c(0), c(2), c(3)][..n].to_vec());
+                extremes.push([c(3), c(2), c(1), c(0), card::word((r + 12) % 13, 3), c(3), 0][..n].to_vec());
+            }
+        }
+        let base_len = items.len();
+        for (i, e) in extremes.into_iter().enumerate() {
+            items.insert((i * 37) % (base_len + i), e);
+        }
         disturbance_pass(run, &items, &|ws| examine(ws).map_err(|(c, m)| format!("{}: {}", c, m)), &|ws| {
             let mut c = hand_json(ws);
             c.as_object_mut().unwrap().insert("profile".into(), json!(profile()));
